@@ -134,23 +134,32 @@ def fam_polygon_rel(ctx, rng):
 
 def fam_3d(ctx, rng):
     # face: point in the face plane
-    face = Bd.face3d(rng, nholes=rng.choice([0, 0, 1]))
+    face = Bd.face3d(rng, nholes=rng.choice([0, 1, 2]))
     pl = face.plane
     b2 = [X.fpt(pl.xyz_to_xy(p)) for p in face.boundary]
     h2 = [[X.fpt(pl.xyz_to_xy(p)) for p in h] for h in (face.holes or ())]
     xs = [float(p[0]) for p in b2]; ys = [float(p[1]) for p in b2]
-    q2 = (rng.uniform(min(xs) - 2, max(xs) + 2), rng.uniform(min(ys) - 2, max(ys) + 2))
-    fq = X.fpt(q2)
-    inside = X.region_contains(b2, h2, fq)
-    clear = min([X.sqdist_to_boundary(b2, fq)] + [X.sqdist_to_boundary(h, fq) for h in h2]) > Fraction(4 * TOL * TOL)
-    if inside is not None and clear:
+    queries = [(rng.uniform(min(xs) - 2, max(xs) + 2), rng.uniform(min(ys) - 2, max(ys) + 2)) for _ in range(4)]
+    for h in h2:
+        # points in and around every hole (the hole centroid region and just outside its edges)
+        cx = float(sum(p[0] for p in h) / len(h)); cy = float(sum(p[1] for p in h) / len(h))
+        queries.append((cx + rng.uniform(-0.05, 0.05), cy + rng.uniform(-0.05, 0.05)))
+        k = rng.randrange(len(h)); vx, vy = float(h[k][0]), float(h[k][1])
+        queries.append((cx + 1.6 * (vx - cx), cy + 1.6 * (vy - cy)))
+    for q2 in queries:
+        fq = X.fpt(q2)
+        inside = X.region_contains(b2, h2, fq)
+        clear = min([X.sqdist_to_boundary(b2, fq)] + [X.sqdist_to_boundary(h, fq) for h in h2]) > Fraction(4 * TOL * TOL)
+        if inside is None or not clear:
+            continue
         p3 = pl.xy_to_xyz(P2(q2))
         got = face.is_point_on_face(p3, TOL)
+        in_hole = any(X.winding_inside(h, fq) for h in h2)
         desc = {'face': face.to_dict(), 'point': tuple(p3), 'inside': inside}
-        ctx.count('face.is_point_on_face', key=(inside, len(h2)), sample=desc)
+        ctx.count('face.is_point_on_face', key=(inside, len(h2), in_hole), sample=desc)
         if bool(got) != inside:
-            ctx.violation('face:is_point_on_face:%s' % ('holes' if h2 else 'plain'), 'is_point_on_face=%r but the point is %s the face' % (
-                got, 'on' if inside else 'off'), desc)
+            ctx.violation('face:is_point_on_face:%s' % ('in_hole' if in_hole else ('holes' if h2 else 'plain')),
+                          'is_point_on_face=%r but the point is %s the face' % (got, 'on' if inside else 'off'), desc)
         # a point off the plane is never on the face
         n = face.normal
         off = P3((p3.x + n.x, p3.y + n.y, p3.z + n.z))
